@@ -275,6 +275,10 @@ def run_c04(tier, seed, res):
     cfgs = [{'backup': 'always', 'backup_count': 'all', 'threads': t, 'quiet': True} for t in (1, 2)]
     acc = sweep('C04', res, m0, series, cfgs, 'cli_rollback_sweep')
     res.coverage['cli_rollback_series'] = len(series)
+    # what a worker that ran ahead of the failing patch has to undo: the hand-picked series, parallel driver, both serial orders of the workers
+    special = [s for s in tq.special_series(m0) if any(not p.ok() for p in s)]
+    pcfgs = [{'backup': b, 'backup_count': 'all' if b == 'always' else None, 'threads': t, 'quiet': True, 'policy': pol} for b in ('always', 'never') for t in (2, 3) for pol in (None, 'high')]
+    sweep('C04', res, m0, special, pcfgs, 'cli_rollback_of_workers_that_ran_ahead')
 
 
 def fuzzy_series(m0):
